@@ -5,7 +5,7 @@
    Describes the code after the fixes c2931dd9 (used counter), 4c090b17/774302f3 (add-path withdrawal
    matched by Compare modulo the path id), 41a529d9 (hash covers all attributes), 678760d8 (RefreshRoute
    copies/redistributes), a6e11f38 (RefreshRoute skips non-exportable paths), 532f0aba
-   (removeExportedPath).  Known, unrepaired behaviour is modelled as it is: RemovePath looks the
+   (removeExportedPath), a95945b3 (RefreshRoute compares all attributes).  Known, unrepaired behaviour is modelled as it is: RemovePath looks the
    UNREWRITTEN path up (stale entries on rewriting sessions), and the arrival of a non-exportable
    path on an add-path session withdraws the whole prefix.
 
@@ -473,7 +473,7 @@ Section ARO.
         | Some c, None => fst (remove_exported a pfx c)
         | None, Some n => add_inner a pfx n
         | Some c, Some n =>
-          if path_equal c n then a else add_inner (fst (remove_exported a pfx c)) pfx n
+          if path_compare c n then a else add_inner (fst (remove_exported a pfx c)) pfx n
         end
       end
     else a.
